@@ -4,6 +4,11 @@
   Encoder = what ugorji/go/codec v1.3.1 emits with the repo's handle (compact, no
   whitespace; integers in decimal; string escapes: \" \\ \b \f \n \r \t, \u00XX for the other
   control characters and for < > &,     for U+2028/U+2029, everything else raw).
+  "Everything else raw" is what the codec does for VALID UTF-8 only: a byte ≥ 0x80 that does not
+  start a valid encoding (`utf8.DecodeRuneInString` answers RuneError, 1) is written as the six
+  characters \uFFFD (json.go:445-452).  `enc` copies it raw; such strings are outside the
+  fragment (`okB` demands `utf8OkB` of every string and key, `encode` answers `none`), and the
+  codec's real output is modelled separately as `encReal` (Nexus/Codec/WpDJsonReal.lean).
   Floats and binaries are not in the fragment (`encode` answers `none`): the codec prints
   floats with Go's shortest-decimal algorithm (trusted, and lossy: an integral float of
   magnitude ≥ 2^53.. comes back as an integer; NaN/±Inf are written as null), and `[]byte` as a
@@ -184,14 +189,73 @@ mutual
     | (k, v) :: r => 0x2c :: (encStr k ++ (0x3a :: (enc v ++ encMembers r)))
 end
 
+/-! ### UTF-8 validity (Go's `utf8.DecodeRune`)
+
+The codec's string writer (`quoteStr`, json.go:399-470 of ugorji/go/codec v1.3.1) runs
+`utf8.DecodeRuneInString` on every byte ≥ 0x80 and writes the six characters `\uFFFD` for each
+byte that does not start a valid encoding (json.go:445-452): a Go string that is not valid UTF-8
+does NOT come back from JSON.  `enc` below copies such bytes raw, so the fragment (`okB`) is
+restricted to valid UTF-8; what the codec really emits is `encReal` in
+Nexus/Codec/WpDJsonReal.lean. -/
+
+/-- Continuation byte, `locb`..`hicb` of unicode/utf8. -/
+def isCont (b : UInt8) : Bool := 0x80 ≤ b.toNat && b.toNat ≤ 0xBF
+
+/-- Lowest second byte `utf8.acceptRanges` admits after the lead byte `c` (excludes overlong
+    3- and 4-byte forms: E0 needs A0.., F0 needs 90..). -/
+def accLo (c : Nat) : Nat := if c = 0xE0 then 0xA0 else if c = 0xF0 then 0x90 else 0x80
+
+/-- Highest second byte admitted after the lead byte `c` (ED ..9F excludes the surrogates
+    U+D800..U+DFFF, F4 ..8F excludes everything above U+10FFFF). -/
+def accHi (c : Nat) : Nat := if c = 0xED then 0x9F else if c = 0xF4 then 0x8F else 0xBF
+
+/-- `size` of `utf8.DecodeRune(bs)` when the head of `bs` is a valid encoding, and `0` when Go
+    answers `(RuneError, 1)` (or `(RuneError, 0)` for the empty input).  Transcribed from the
+    tables `first`/`acceptRanges` of unicode/utf8: 00..7F one byte; 80..C1 and F5..FF invalid
+    (C0, C1 would be overlong); C2..DF two bytes; E0..EF three; F0..F4 four; the second byte
+    within `accLo..accHi`, the others continuation bytes; too few bytes left is invalid. -/
+def runeLen : Bytes → Nat
+  | [] => 0
+  | b0 :: r =>
+    let c := b0.toNat
+    if c < 0x80 then 1
+    else if c < 0xC2 then 0
+    else if c < 0xE0 then
+      match r with
+      | b1 :: _ => if isCont b1 then 2 else 0
+      | _ => 0
+    else if c < 0xF0 then
+      match r with
+      | b1 :: b2 :: _ => if accLo c ≤ b1.toNat ∧ b1.toNat ≤ accHi c ∧ isCont b2 = true then 3 else 0
+      | _ => 0
+    else if c < 0xF5 then
+      match r with
+      | b1 :: b2 :: b3 :: _ =>
+        if accLo c ≤ b1.toNat ∧ b1.toNat ≤ accHi c ∧ isCont b2 = true ∧ isCont b3 = true then 4 else 0
+      | _ => 0
+    else 0
+
+/-- Valid UTF-8 (= Go's `utf8.Valid`): the byte string splits into encodings `utf8.DecodeRune`
+    accepts — no overlong forms, no surrogates, nothing above U+10FFFF. -/
+def utf8OkB : Bytes → Bool
+  | [] => true
+  | b0 :: r =>
+    match runeLen (b0 :: r), r with
+    | 1, r => utf8OkB r
+    | 2, _ :: r' => utf8OkB r'
+    | 3, _ :: _ :: r' => utf8OkB r'
+    | 4, _ :: _ :: _ :: r' => utf8OkB r'
+    | _, _ => false
+
 mutual
-  /-- In the fragment: no float, no binary, integers in Go's range. -/
+  /-- In the fragment: no float, no binary, integers in Go's range, every string and every dict
+      key valid UTF-8 (the codec replaces every other byte by U+FFFD, see `utf8OkB`). -/
   def okB : CVal → Bool
     | .null => true
     | .bool _ => true
     | .int i => decide (-(9223372036854775808 : Int) ≤ i) && decide (i < (18446744073709551616 : Int))
     | .float _ => false
-    | .str _ => true
+    | .str s => utf8OkB s
     | .bin _ => false
     | .list l => okListB l
     | .dict d => noDupFrom [] d && okDictB d
@@ -200,7 +264,7 @@ mutual
     | v :: vs => okB v && okListB vs
   def okDictB : List (Bytes × CVal) → Bool
     | [] => true
-    | (_, v) :: r => okB v && okDictB r
+    | (k, v) :: r => utf8OkB k && okB v && okDictB r
 end
 
 /-- After a value: `, v` repeated, then `]`.  `lf` bounds the number of elements. -/
